@@ -9,7 +9,7 @@ from ..views import V
 from .. import corpus
 from .gen_access import hdr_field, level_geometry
 
-SERVES = {"C03", "C04", "C05", "C16", "C17", "C18", "C19", "C01", "C10"}
+SERVES = {"C03", "C04", "C05", "C06", "C16", "C17", "C18", "C19", "C01", "C10"}
 GH_N = [("unsigned long", "sbv_n")]
 SMALL = 1 << 16
 PB = ["kissat", "z3", "cvc5", "minisat"]
@@ -284,8 +284,100 @@ def visit_contracts(cs, tier):
     return out
 
 
+def sbc_contracts(cs, tier):
+    """size_bytes_checked(view, n) on a buffer object of EXACTLY n bytes (any read at offset >= n is a CBMC pointer-check failure),
+    unchecked assert configuration (the one in which this function is the only protection)"""
+    sch, g, u = cs.schema, cs.gen, cs.unit
+    out = []
+    by_ident = {li.ident: li for li in g.levels}
+    for idn in g.sbc_roots:
+        li = by_ident[idn]
+        L = li.origin
+        f = u.root("r_%s_sbc" % idn)
+        vp, n = f.p[0], f.p[1]
+        rec = f.params[0]["rec"]
+        vw = V(u, "(*%s)" % vp, rec)
+        hs = sch.header.size
+        wbl = hdr_field(sch, sch.header, "blockLength", vw.begin)
+        wm = Gen.wire_members(li)
+        # structure-fits predicate, evaluated left to right so that nothing is read before it is known to be inside the buffer
+        conds = ["sbv_n >= %d" % hs, "%d + %s <= sbv_n" % (hs, wbl)]
+        off = "(%d + %s)" % (hs, wbl)
+        has_group = False
+        for i, m in wm:
+            if m["mkind"] == "data":
+                e = m["enc"]
+                loff, lprim = sch.header_member(e, "length")
+                lw = PRIMS[lprim]["size"]
+                ln = hdr_field(sch, e, "length", "%s + %s" % (vw.begin, off))
+                conds += ["%s + %d <= sbv_n" % (off, lw), "%s + %d + %s <= sbv_n" % (off, lw, ln)]
+                off = "(%s + %d + %s)" % (off, lw, ln)
+            elif m["mkind"] == "group":
+                has_group = True
+                gl = m["level"]
+                dim = gl.dimension
+                at = "%s + %s" % (vw.begin, off)
+                nn = hdr_field(sch, dim, "numInGroup", at)
+                bl = hdr_field(sch, dim, "blockLength", at)
+                conds += ["%s + %d <= sbv_n" % (off, dim.size), "%s + %d + %s * %s <= sbv_n" % (off, dim.size, nn, bl)]
+                off = "(%s + %d + %s * %s)" % (off, dim.size, nn, bl)
+        fits = "(" + " && ".join(conds) + ")"
+        post = [("valid-exactly-when-the-structure-fits", "RET.valid == (_Bool)%s" % fits), ("exact-size-when-valid", "SPEC_IMPLIES(RET.valid, RET.size == %s)" % off), ("zero-size-when-invalid", "SPEC_IMPLIES(!RET.valid, RET.size == 0)"),
+                ("work-bounded-by-n", "sbv_steps <= 8 * (sbv_n + 1)")]
+        pre = [OBJ(vp, rec), BUF(vw.begin, "sbv_n"), ASSUME("%s == sbv_n" % n)]
+        bound = []
+        kind = "unbounded"
+        unwind = None
+        if has_group:
+            # entry loops: bounded stand-in (numInGroup <= 2 for every group of the level)
+            kind = "bounded(numInGroup<=2)"
+            unwind = 4
+            o2 = "(%d + %s)" % (hs, wbl)
+            for i, m in wm:
+                if m["mkind"] == "group":
+                    dim = m["level"].dimension
+                    at = "%s + %s" % (vw.begin, o2)
+                    nn = hdr_field(sch, dim, "numInGroup", at)
+                    bl = hdr_field(sch, dim, "blockLength", at)
+                    bound.append(ASSUME("!(sbv_n >= %d && %d + %s <= sbv_n && %s + %d <= sbv_n) || %s <= 2" % (hs, hs, wbl, o2, dim.size, nn)))
+                    o2 = "(%s + %d + %s * %s)" % (o2, dim.size, nn, bl)
+                elif m["mkind"] == "data":
+                    break
+        name = "%s:%s::size_bytes_checked" % (cs.name, idn)
+        out.append(Contract(f, name + " [any buffer]", props={"C06"}, ghosts=GH_N, mode="S", pre=pre + bound, post=post, assigns=[], kind=kind, unwind=unwind, backends=PB,
+                            note="hostile buffers: every length n, every content"))
+        # the same contract for buffers whose wire block length covers the compiled block and whose data prefixes are inside the buffer:
+        # separates the part that holds today from the known findings
+        benign = [ASSUME("sbv_n < %d || %s >= %dUL" % (hs, wbl, L.block_length))]
+        # ... and whose <data> length prefixes are inside the buffer (their payload may still be truncated)
+        cprev = ["sbv_n >= %d" % hs, "%d + %s <= sbv_n" % (hs, wbl)]
+        o3 = "(%d + %s)" % (hs, wbl)
+        for i, m in wm:
+            if m["mkind"] == "data":
+                e = m["enc"]
+                loff, lprim = sch.header_member(e, "length")
+                lw = PRIMS[lprim]["size"]
+                benign.append(ASSUME("!(%s) || %s + %d <= sbv_n" % (" && ".join(cprev), o3, lw)))
+                ln = hdr_field(sch, e, "length", "%s + %s" % (vw.begin, o3))
+                cprev += ["%s + %d <= sbv_n" % (o3, lw), "%s + %d + %s <= sbv_n" % (o3, lw, ln)]
+                o3 = "(%s + %d + %s)" % (o3, lw, ln)
+            elif m["mkind"] == "group":
+                dim = m["level"].dimension
+                at = "%s + %s" % (vw.begin, o3)
+                nn = hdr_field(sch, dim, "numInGroup", at)
+                bl = hdr_field(sch, dim, "blockLength", at)
+                cprev += ["%s + %d <= sbv_n" % (o3, dim.size), "%s + %d + %s * %s <= sbv_n" % (o3, dim.size, nn, bl)]
+                o3 = "(%s + %d + %s * %s)" % (o3, dim.size, nn, bl)
+        out.append(Contract(f, name + " [wire block >= compiled block, data prefixes inside]", props={"C06"}, ghosts=GH_N, mode="S", pre=pre + bound + benign, post=post, assigns=[], kind=kind, unwind=unwind, backends=PB))
+    return out
+
+
 def contracts(tier):
     out = []
+    for cs in corpus.schemas(tier, asserts="unchecked"):
+        if cs.name.endswith("_be") and tier != "thorough":
+            continue
+        out += sbc_contracts(cs, tier)
     for cs in corpus.schemas(tier):
         out += visit_contracts(cs, tier)
         out += scalar_type_contracts(cs, tier)
